@@ -76,14 +76,18 @@ def random_items(ctx, n):
         else:
             ks = [rng.choice(universe) for _ in range(nadd)]
         for k in ks:
-            ops.append(("add", k, rng.choice([1, 2, 3, 20]) if klass == "bigvals" else rng.choice([1, 1, 2])))
+            ops.append(("add", k, rng.choice([1, 2, 3, 20]) if klass == "bigvals" else rng.choice([0, 1, 1, 2])))
+        if t % 4 == 1:
+            # the smallest entry there is - empty key, empty value - alone in its chunk (limit 1) or next to others, once or twice
+            for _ in range(rng.choice([1, 1, 2])):
+                ops.insert(rng.randrange(len(ops) + 1), ("add", b"", 0))
         ops.append(("iter",) if rng.random() < 0.6 else ("write",))
         # after iteration began: adds and writes must be refused
         if rng.random() < 0.7:
             ops.append(("add", rng.choice(universe), 1))
         if rng.random() < 0.5:
             ops.append(("write2",))
-        items.append({"maxmem": rng.choice([1, 30, 60, 100, 300, 2000, 100000]), "ops": ops, "origin": "random", "klass": klass})
+        items.append({"maxmem": rng.choice([1, 1, 30, 100000]) if t % 4 == 1 else rng.choice([1, 30, 60, 100, 300, 2000, 100000]), "ops": ops, "origin": "random", "klass": klass})
     return items
 
 
@@ -103,10 +107,10 @@ def item_lines(wd, n, it, pool):
             os.unlink(p)
     for op in it["ops"]:
         if op[0] == "add":
-            ntok = op[2] if it["origin"] == "random" else max(1, op[2] // 2)
+            ntok = op[2] if it["origin"] == "random" else max(1, op[2] // 2)       # 0: the empty value
             toks = list(range(tok, tok + ntok))
             tok += ntok
-            L.append("s_add 0 %s T%s" % (shapes.hexs(op[1]), ",".join(map(str, toks))))
+            L.append("s_add 0 %s %s" % (shapes.hexs(op[1]), ("T" + ",".join(map(str, toks))) if toks else "-"))
             L.append("obs " + tmp)
         elif op[0] == "iter" and not iterated:
             L += ["s_iter 0 1", "obs " + tmp, "it_drain 1"]
